@@ -30,7 +30,7 @@ use std::panic::AssertUnwindSafe;
 use std::sync::Arc;
 use types::*;
 
-pub const KNOWN_CLASS: &str = "int-literal-int-stats-float-row";
+pub const KNOWN_CLASS: &str = "int-literal-exact-vs-engine-coercion";
 
 fn impl_eval(c: &Case) -> String {
     let p = to_impl(&c.pred);
@@ -273,6 +273,14 @@ fn corpus() -> Vec<Case> {
         "E eq 4 i:9223372036854775807 1 4 I:9223372036854775807 I:9223372036854775808 0 1 1 4 i:9223372036854775807",
         // the known class: integer statistics, integer literal, float row above 2^53
         "E le 3 i:9007199254740995 1 3 I:9007199254740996 I:9007199254740996 0 1 1 3 f:4845873199050653698",
+        // same class through a float literal in the same BETWEEN / IN list (integer column)
+        "E bt 2 f:4602678819172646912 i:9007199254740992 1 2 I:9007199254740993 I:9007199254740993 0 1 1 2 i:9007199254740993",
+        "E in 2 2 f:4609434218613702656 i:9007199254740992 1 2 I:9007199254740993 I:9007199254740993 0 1 1 2 i:9007199254740993",
+        // a BETWEEN mixing type classes (the engine casts the numbers to strings): outside the model
+        "E bt 2 s:3130 i:9 1 2 I:10 I:10 0 1 1 2 i:10",
+        // mixed BETWEEN / IN below 2^53 and with float statistics stay sound
+        "E bt 2 f:4602678819172646912 i:4 1 2 I:5 I:9 0 1 1 2 i:5",
+        "E bt 3 i:2 f:4613937818241073152 1 3 F:4616189618054758400 F:4617315517961601024 0 1 1 3 f:4616189618054758400",
         // missing / mistyped statistics, NULL rows, NOT over a pruning child, literals of another class
         "E lt 2 i:5 0 1 1 2 i:1",
         "E lt 2 i:5 1 2 N I:9 0 1 1 2 i:1",
